@@ -43,28 +43,79 @@ fn check_if_inputs_are_power_of_two(
     let mut is_even: bool = false;
 
     //if the first expression is a number literal that is a power of 2
-    if let Expression::NumberLiteral(_, val_string, _) = *box_expression {
-        let value = val_string
-            .parse::<u32>()
-            .expect("Could not parse NumberLiteral value from string to u32");
-
-        if (value != 0) && ((value & (value - 1)) == 0) {
+    if let Expression::NumberLiteral(_, val_string, exponent) = *box_expression {
+        if is_power_of_two(&val_string, &exponent) {
             is_even = true;
         }
     }
 
-    //if the first expression is a number literal that is a power of 2
-    if let Expression::NumberLiteral(_, val_string, _) = *box_expression_1 {
-        let value = val_string
-            .parse::<u32>()
-            .expect("Could not parse NumberLiteral value from string to u32");
-
-        if (value != 0) && ((value & (value - 1)) == 0) {
+    //if the second expression is a number literal that is a power of 2
+    if let Expression::NumberLiteral(_, val_string, exponent) = *box_expression_1 {
+        if is_power_of_two(&val_string, &exponent) {
             is_even = true;
         }
     }
 
     is_even
+}
+
+//Returns true if the decimal literal `integer`e`exponent` is a power of two.
+//Works on the decimal digits so that literals of any size (up to 2**255 and beyond) are handled.
+fn is_power_of_two(integer: &str, exponent: &str) -> bool {
+    let mut digits: Vec<u8> = integer
+        .bytes()
+        .filter(|byte| byte.is_ascii_digit())
+        .map(|byte| byte - b'0')
+        .collect();
+
+    let exponent: i64 = if exponent.is_empty() {
+        0
+    } else {
+        match exponent.parse::<i64>() {
+            Ok(exponent) => exponent,
+            //An exponent that large makes the value a huge multiple of ten or a tiny fraction
+            Err(_) => return false,
+        }
+    };
+
+    if exponent > 0 {
+        //A multiple of ten is never a power of two
+        return false;
+    } else if exponent < 0 {
+        //The value is only an integer if the literal ends in enough zeros
+        let zeros = exponent.unsigned_abs() as usize;
+        if digits.len() <= zeros || digits[digits.len() - zeros..].iter().any(|digit| *digit != 0) {
+            return false;
+        }
+        digits.truncate(digits.len() - zeros);
+    }
+
+    //Remove leading zeros, zero itself is not a power of two
+    let leading_zeros = digits.iter().take_while(|digit| **digit == 0).count();
+    digits.drain(..leading_zeros);
+    if digits.is_empty() {
+        return false;
+    }
+
+    //Halve the number until it is odd, a power of two ends at one
+    while digits.len() > 1 || digits[0] != 1 {
+        if digits[digits.len() - 1] % 2 != 0 {
+            return false;
+        }
+
+        let mut carry = 0;
+        for digit in digits.iter_mut() {
+            let current = carry * 10 + *digit;
+            *digit = current / 2;
+            carry = current % 2;
+        }
+
+        if digits[0] == 0 {
+            digits.remove(0);
+        }
+    }
+
+    true
 }
 
 #[test]
